@@ -371,6 +371,7 @@ pub fn gen_file_plan(rng: &mut Rng, len: usize) -> FilePlan {
         fault: None,
         endless: None,
         open_fails: None,
+        open_blocks: false,
     }
 }
 
